@@ -101,6 +101,15 @@ Theorem C14_requeue_rechecks_queue : forall acts now u, In u (sync_unlocks acts 
 Proof. exact requeue_rechecks. Qed.
 Print Assumptions C14_requeue_rechecks_queue.
 
+(* residual window F21b (still in /repo): only the state is re-checked, not the reason; a requeue decided on
+   an older snapshot unlocks a container that was meanwhile requeued, forgotten by the pool and locked again.
+   The end-to-end judge gives exactly that pattern its own result bit (known_f21b below). *)
+Theorem C14_requeue_reason_not_rechecked_refuted :
+  ~ (forall acts now (running_now : rmap) u,
+       In u (sync_unlocks acts now) -> exists t, rlook u running_now = Some t /\ t <> 0).
+Proof. exact requeue_reason_not_rechecked_refuted. Qed.
+Print Assumptions C14_requeue_reason_not_rechecked_refuted.
+
 (* the boolean specification of the sync stage is the Prop-level one, and the model meets it *)
 Theorem C14_sync_spec_reflects : forall c, C14_sync_run.spec_b c = true <-> SyncSpec c.
 Proof. exact sync_spec_reflects. Qed.
@@ -209,6 +218,23 @@ Theorem C14_e2e_start_ok_spec : forall s t vm u b,
   b = false /\ (forall tb, lookZ vm (j_bad s) = Some tb -> t <= tb + grace).
 Proof. exact start_ok_spec. Qed.
 Print Assumptions C14_e2e_start_ok_spec.
+
+(* the narrow trigger predicate of the residual finding F21b (stale requeue after a re-lock) excuses nothing
+   else: no double start, no booting VM, and the dispatcher's own calls on u must end Unlock-Lock-Unlock with
+   the start arriving within 250 ms of that Lock *)
+Theorem C14_e2e_known_f21b_narrow : forall s t vm u b,
+  known_f21b s t vm u b = true ->
+  ~ In u (map snd (j_live s)) /\ ~ In u (map snd (j_infl s)) /\ b = false /\ ~ In u (j_locked s) /\
+  exists t1 t2 t3 rest, hist_of u (j_hist s) = (false, t3) :: (true, t2) :: (false, t1) :: rest /\ t <= t2 + f21b_window.
+Proof. exact known_f21b_narrow. Qed.
+Print Assumptions C14_e2e_known_f21b_narrow.
+
+Theorem C14_e2e_f21b_pattern_example :
+  known_hits j0 [XLock 1 7; XUnlock 50 7; XLock 52 7; XUnlock 53 7; XStartBegin 54 1 7 false] = true /\
+  judge j0 [XLock 1 7; XUnlock 50 7; XLock 52 7; XUnlock 53 7; XStartBegin 54 1 7 false] = true /\
+  judge j0 [XLock 1 7; XUnlock 53 7; XStartBegin 54 1 7 false] = false.
+Proof. exact judge_flags_f21b_pattern. Qed.
+Print Assumptions C14_e2e_f21b_pattern_example.
 
 Theorem C14_e2e_judge_rejects_double_start :
   judge j0 [XLock 1 7; XStartBegin 2 1 7 false; XStartEnd 3 1 7 true; XStartBegin 12 2 7 false] = false.
